@@ -143,9 +143,18 @@ func (ct *GadgetCiphertext) ReadFrom(r io.Reader) (n int64, err error) {
 
 		n += inc
 
-		inc, err = ct.Value.ReadFrom(r)
+		if inc, err = ct.Value.ReadFrom(r); err != nil {
+			return n + inc, err
+		}
 
-		return n + inc, err
+		n += inc
+
+		// The accessors (Degree, LevelQ, LevelP) index the first component.
+		if len(ct.Value) == 0 || len(ct.Value[0]) == 0 || len(ct.Value[0][0]) == 0 {
+			return n, fmt.Errorf("cannot ReadFrom: invalid gadget ciphertext: empty decomposition")
+		}
+
+		return n, nil
 
 	default:
 		return ct.ReadFrom(bufio.NewReader(r))
